@@ -78,3 +78,6 @@ package action
 //@   ensures[C04]   err == nil ==> ta.destinationCoin.Denom == D
 //@   ensures[C04]   isFeeAttrs(packet) && validFees(fs) && (sum5(A, fs) >= A || mulOvf5(A, fs)) ==> err != nil && bank == old(bank) && ta.destinationCoin == old(ta.destinationCoin)
 //@   ensures[C04]   !isFeeAttrs(packet) ==> err != nil && bank == old(bank) && ta.destinationCoin == old(ta.destinationCoin)
+
+//@ func NewFeeController(logger, eventService, bankKeeper) (result, err)
+//@   ensures[C05] err == nil ==> result != nil && result.BaseController != nil && result.BaseController.id == core.ACTION_FEE && result.BankKeeper != nil && result.eventService != nil && result.logger != nil
